@@ -6,8 +6,9 @@
  *
  * One case = one line: "flat" TAB cmd TAB cmd ...; a command is a space separated list of words, byte strings are
  * hex ("-" = empty). Every case starts from an empty state. Output: one result per command separated by " | ".
- *   def <name> <hex text>              register the YANG text of module / submodule <name> (answer: 0)
- *   ctx c<k> <options>                 new context (import callback installed)
+ *   def <set>/<name> <hex text>        register the YANG text of module / submodule <name> in the module set <set>
+ *                                      (answer: 0); the structured set and its flattened twin use the same module names
+ *   ctx c<k> <options> <set>           new context; its import callback serves the texts of <set>
  *   load c<k> <name> <feats>           ly_ctx_load_module(name, NULL, features) -> 0 | 1/<vecode>/<apptag>~<error class>
  *   modtxt c<k> <name> <feats>         lys_parse() of the registered text with the features -> rc[/...]
  *   setimpl c<k> <name> <feats>        lys_set_implemented()
@@ -28,9 +29,10 @@
 #include "libyang.h"
 
 #define NCTX 8
-#define NDEF 16
+#define NDEF 32
 
 static struct ly_ctx *C[NCTX];
+static char CSET[NCTX][16];
 static struct {
     char *name;
     char *text;
@@ -158,10 +160,13 @@ feat_list(char *w)
 }
 
 static const char *
-def_text(const char *name)
+def_text(const char *set, const char *name)
 {
+    char key[128];
+
+    snprintf(key, sizeof key, "%s/%s", set, name);
     for (int i = 0; i < ndef; i++) {
-        if (!strcmp(DEF[i].name, name)) {
+        if (!strcmp(DEF[i].name, key)) {
             return DEF[i].text;
         }
     }
@@ -172,9 +177,9 @@ static LY_ERR
 imp_clb(const char *mod_name, const char *mod_rev, const char *submod_name, const char *submod_rev, void *user_data,
         LYS_INFORMAT *format, const char **module_data, ly_module_imp_data_free_clb *free_module_data)
 {
-    const char *t = def_text(submod_name ? submod_name : mod_name);
+    const char *t = def_text((const char *)user_data, submod_name ? submod_name : mod_name);
 
-    (void)mod_rev; (void)submod_rev; (void)user_data;
+    (void)mod_rev; (void)submod_rev;
     if (!t) {
         return LY_ENOTFOUND;
     }
@@ -262,7 +267,7 @@ run_cmd(char *cmd, struct sbuf *o)
             sb_str(o, "?full");
         }
     } else if (!strcmp(w[0], "ctx")) {
-        NEED(3);
+        NEED(4);
         int c = slot_c(w[1]);
         LY_ERR rc;
 
@@ -270,9 +275,10 @@ run_cmd(char *cmd, struct sbuf *o)
             ly_ctx_destroy(C[c]);
             C[c] = NULL;
         }
+        snprintf(CSET[c], sizeof CSET[c], "%s", w[3]);
         rc = ly_ctx_new(NULL, (uint16_t)strtoul(w[2], NULL, 0), &C[c]);
         if (!rc) {
-            ly_ctx_set_module_imp_clb(C[c], imp_clb, NULL);
+            ly_ctx_set_module_imp_clb(C[c], imp_clb, CSET[c]);
         }
         sb_fmt(o, "%d", (int)rc);
     } else if (!strcmp(w[0], "load")) {
@@ -290,7 +296,7 @@ run_cmd(char *cmd, struct sbuf *o)
     } else if (!strcmp(w[0], "modtxt")) {
         NEED(4);
         int c = slot_c(w[1]);
-        const char *t = def_text(w[2]);
+        const char *t = def_text(CSET[c], w[2]);
         struct ly_in *in = NULL;
         struct lys_module *m = NULL;
         LY_ERR rc;
